@@ -37,6 +37,46 @@ def drive_case(case):
     return {"id": case["id"], "vals": case["vals"], "chain": case["chain"], "field": case["field"], "ret": ret}
 
 
+def _src(v):
+    from ..serial import num_of
+
+    if isinstance(v, bool):
+        return {"t": "b", "s": [], "num": [0, 1], "b": v}
+    if isinstance(v, (int, float)):
+        return {"t": "n", "s": [], "num": num_of(v), "b": False}
+    if isinstance(v, str):
+        return {"t": "s", "s": [ord(c) for c in v], "num": [0, 1], "b": False}
+    return {"t": "null", "s": [], "num": [0, 1], "b": False}
+
+
+HARVEST_BASE = 9_000_000
+
+
+def harvested_observations():
+    """Calls of SigmaDetectionItem.from_mapping made by the repository's own tests, with the results
+    observed in the test process (harness/harvest_plugin.py), in the observation format of Judge_C03."""
+    from ..harvest import harvest
+
+    obs = []
+    for i, m in enumerate(harvest({"mapping"})["mapping"]):
+        key = m["key"]
+        name, _, mods = (key or "").partition("|")
+        vals = m["val"] if m["islist"] else [m["val"]]
+        if any(isinstance(v, float) and (v != v or abs(v) == float("inf")) for v in vals):
+            continue
+        ret = m["ret"]
+        if not ret["ok"]:
+            ret["out"] = {"value": [], "linking": "or", "negated": False}
+        else:
+            for v in _walk(ret["out"]["value"]):
+                if v["t"] == "re":
+                    v["parts"] = []
+        ret["msg"] = []
+        obs.append({"id": HARVEST_BASE + i, "vals": [_src(v) for v in vals], "chain": [[ord(c) for c in x] for x in mods.split("|") if mods],
+                    "field": bool(key is not None and name != ""), "ret": ret})
+    return obs
+
+
 def _walk(vs):
     for v in vs:
         yield v
@@ -58,12 +98,25 @@ def _pretty(o):
     }
 
 
+def corrupt(o):
+    """binding self-test: the recorded value linking is flipped"""
+    if not o["ret"]["ok"]:
+        return None
+    o["ret"]["out"]["linking"] = "and" if o["ret"]["out"]["linking"] == "or" else "or"
+    return o
+
+
 def run(tier: str, seed: int) -> int:
     chk = Check("C03", tier, seed, "model_checking")
     chk.model_check("MC_Modifiers", "MC_Modifiers.cfg" if tier == "quick" else "MC_Modifiers_thorough.cfg")
     cases = chk.generate("Gen_C03", shards=list(range(0, 34)))
     obs = drive("harness.props.c03", "drive_case", cases)
+    hv = harvested_observations()
+    chk.coverage["harvested_from_repository_tests"] = len(hv)
+    obs += hv
+    cases = cases + [{"id": o["id"], "vals": o["vals"], "chain": o["chain"], "field": o["field"]} for o in hv]
     verdicts = chk.judge("Judge_C03", obs)
+    chk.binding_selftest("Judge_C03", obs, verdicts, corrupt)
     by_id = {o["id"]: _pretty(o) for o in obs}
     counts = chk.absorb(verdicts, by_id, {c["id"]: c for c in cases})
     st = {}
@@ -79,7 +132,8 @@ def run(tier: str, seed: int) -> int:
         "percent signs, regex edges, CIDR texts, non-ASCII; numbers, bools, null; 5 lists) x every modifier chain of "
         "length <=2 over the full 33-entry table (admissible and inadmissible), chains of length 3 (quick: seeded "
         "sample; thorough: all over 30 names) and seeded chains of length 4 over 10 core values; distinct by "
-        "construction; non-trivial = at least one modifier",
+        "construction; non-trivial = at least one modifier; plus every distinct SigmaDetectionItem.from_mapping call the "
+        "repository's own test suite makes, with the result observed inside the test run (harness/harvest_plugin.py)",
         samples=samples,
         traces=len(obs),
         exhaustive=True,
